@@ -60,7 +60,8 @@ func (g *Gen) hostType(depth int, uniform bool) *Type {
 	}
 }
 
-func (g *Gen) newStruct(depth int, uniform bool) *Type {
+func (g *Gen) newStruct(depth int, uniform bool, top ...bool) *Type {
+	isTop := len(top) > 0 && top[0]
 	r := g.R
 	n := r.Range(1, 5)
 	ms := make([]Member, n)
@@ -72,9 +73,12 @@ func (g *Gen) newStruct(depth int, uniform bool) *Type {
 			continue
 		}
 		ms[i] = Member{Name: g.name("m"), Type: mt}
-		if r.Chance(1, 8) && g.on("attr.align") {
+		if r.Chance(1, 8) && g.on("attr.align") && (isTop || g.on("attr.align.nested")) {
 			ms[i].Align = []int{16, 32}[r.Intn(2)]
 			g.feat("attr.align")
+			if !isTop {
+				g.feat("attr.align.nested")
+			}
 		}
 	}
 	t := g.U.Struct(g.name("S"), ms)
@@ -124,7 +128,7 @@ func (g *Gen) Generate() *Program {
 	g.addGlobal(g.out)
 
 	// input buffer (read-only storage)
-	inT := g.newStruct(2, false)
+	inT := g.newStruct(2, false, true)
 	gr, bi = bind()
 	g.addGlobal(&Var{Name: g.name("inp"), Kind: VGlobal, Ty: inT, Space: "storage", Access: "read", Group: gr, Binding: bi})
 	// optional whole-binding runtime array
@@ -137,7 +141,7 @@ func (g *Gen) Generate() *Program {
 	}
 	// optional uniform buffer
 	if r.Chance(1, 2) && g.on("uniform") {
-		ut := g.newStruct(1, true)
+		ut := g.newStruct(1, true, true)
 		gr, bi = bind()
 		g.addGlobal(&Var{Name: g.name("ub"), Kind: VGlobal, Ty: ut, Space: "uniform", Group: gr, Binding: bi})
 		g.feat("space.uniform")
@@ -146,7 +150,7 @@ func (g *Gen) Generate() *Program {
 	for i, n := 0, r.Intn(3); i < n; i++ {
 		t := g.randValueType()
 		v := &Var{Name: g.name("pv"), Kind: VGlobal, Ty: t, Space: "private"}
-		if r.Bool() {
+		if r.Bool() && g.on("private.implicit-init") {
 			for k := 0; k < 5 && v.Init == nil; k++ {
 				v.Init = g.ok(g.consOrLit(t))
 			}
@@ -175,6 +179,13 @@ func (g *Gen) Generate() *Program {
 		}
 		if t.Kind == KArray {
 			g.feat("const.module-array")
+		}
+		if t.Kind == KVec {
+			if !g.on("const.module-vec") {
+				t = t.Elem
+			} else {
+				g.feat("const.module-vec")
+			}
 		}
 		var init Expr
 		for k := 0; k < 5 && init == nil; k++ {
@@ -332,7 +343,19 @@ func (g *Gen) genEntry(idx int) {
 		n = r.Range(4, 14)
 	}
 	g.push()
-	body := g.genStmts(n)
+	var pre []Stmt
+	if !g.on("private.implicit-init") {
+		// every private global is assigned before anything reads it
+		for _, v := range g.globals {
+			if v.Space == "private" {
+				g.touch(v)
+				pre = append(pre, &Assign{LHS: &Ref{V: v}, Op: "=", RHS: g.consOrLit(v.Ty)})
+			}
+		}
+	} else if len(g.globals) > 0 {
+		g.feat("private.implicit-init")
+	}
+	body := append(pre, g.genStmts(n)...)
 	// final sinks: every scalar/vector local still in scope flows to the typed sink arrays
 	body = append(body, g.sinkLocals()...)
 	g.pop()
